@@ -299,6 +299,8 @@ class Waiting(State):
     DONE_CALLBACK = 'DONE_CALLBACK'
 
     _interruption = None
+    # A wake-up (result, exception) that arrived while the wait was interrupted, kept for the re-armed wait
+    _missed_wakeup: Optional[Tuple[Any, Optional[BaseException]]] = None
 
     def __str__(self) -> str:
         state_info = super().__str__()
@@ -346,6 +348,9 @@ class Waiting(State):
             # state is back to how it was before the interruption so that we can be
             # re-executed
             self._waiting_future = futures.Future()
+            if self._missed_wakeup is not None:
+                missed, self._missed_wakeup = self._missed_wakeup, None
+                self._wake_up(*missed)
             raise
 
         if result == NULL:
@@ -357,11 +362,23 @@ class Waiting(State):
 
     def resume(self, value: Any = NULL) -> None:
         assert self._waiting_future is not None, 'Not yet waiting'
+        self._wake_up(value, None)
 
-        if self._waiting_future.done():
+    def _wake_up(self, value: Any, exception: Optional[BaseException]) -> None:
+        """Complete the wait with a value or an exception; only the first wake-up counts."""
+        future = self._waiting_future
+
+        if future.done():
+            if not future.cancelled() and isinstance(future.exception(), Interruption) and self._missed_wakeup is None:
+                # An interruption (e.g. a pause) got there first.  The wait is re-armed once that has been dealt with
+                # in `execute`: keep the wake-up for then, or it would be lost and the process would wait forever
+                self._missed_wakeup = (value, exception)
             return
 
-        self._waiting_future.set_result(value)
+        if exception is not None:
+            future.set_exception(exception)
+        else:
+            future.set_result(value)
 
 
 class Excepted(State):
